@@ -1,11 +1,13 @@
 (** Extraction of the executable model (ExtrOcamlBasic only; numbers stay
     extracted inductives). *)
 From Coq Require Import Extraction ExtrOcamlBasic.
-From Oal Require Import Text Position Tag Unify Loader.
+From Oal Require Import Text Position Tag Unify Loader Merge SpecUri.
 Extraction Language OCaml.
 Separate Extraction
   Text.len8s Text.len16s Text.crlf_wf Text.split_at8 Text.utf16
   Position.position_to_utf8 Position.utf8_to_position Position.utf8_range_to_position
   Position.utf8_to_char_index Position.pos_spec Position.select16
   Unify.unify_all Unify.reduce Unify.unify
-  Loader.load Loader.topo_kahn Loader.join.
+  Loader.load Loader.topo_kahn Loader.join
+  Merge.into_openapi
+  SpecUri.pattern SpecUri.path_params SpecUri.xfer_id SpecUri.status_of_number SpecUri.status_of_literal SpecUri.braces.
